@@ -591,6 +591,10 @@ func (c *C) Close() error {
 		err := c.cl.Close()
 		c.cl = nil
 		c.serverName = ""
+		if errors.Is(err, net.ErrClosed) {
+			// Closed already after a command that failed without a reply.
+			err = nil
+		}
 		return err
 	}
 
